@@ -6,7 +6,9 @@
  *
  * \todo the non SSE2 version of this code is slow, replace by code from mzd_process_rows8
  *
- * \warn Assumes __M4RI_ALIGNMENT(c, 16) == __M4RI_ALIGNMENT(t[i], 16)
+ * The destination is brought to a 16-byte boundary by peeling one word; the table rows t[i]
+ * are read with unaligned loads, so they need not have the same 16-byte phase as c (c may be
+ * a row of a window that starts at an odd word while the tables are plain matrices).
  */
 
 static inline void __M4RI_TEMPLATE_NAME(_mzd_combine)(word *m, word const *t[N], wi_t wide) {
@@ -15,17 +17,6 @@ static inline void __M4RI_TEMPLATE_NAME(_mzd_combine)(word *m, word const *t[N],
 #if __M4RI_HAVE_SSE2
 
   assert((__M4RI_ALIGNMENT(m, 16) == 8) | (__M4RI_ALIGNMENT(m, 16) == 0));
-
-  switch (N) { /* we rely on the compiler to optimise this switch away, it reads nicer than #if */
-  case 8: assert(__M4RI_ALIGNMENT(m, 16) == __M4RI_ALIGNMENT(t[7], 16));
-  case 7: assert(__M4RI_ALIGNMENT(m, 16) == __M4RI_ALIGNMENT(t[6], 16));
-  case 6: assert(__M4RI_ALIGNMENT(m, 16) == __M4RI_ALIGNMENT(t[5], 16));
-  case 5: assert(__M4RI_ALIGNMENT(m, 16) == __M4RI_ALIGNMENT(t[4], 16));
-  case 4: assert(__M4RI_ALIGNMENT(m, 16) == __M4RI_ALIGNMENT(t[3], 16));
-  case 3: assert(__M4RI_ALIGNMENT(m, 16) == __M4RI_ALIGNMENT(t[2], 16));
-  case 2: assert(__M4RI_ALIGNMENT(m, 16) == __M4RI_ALIGNMENT(t[1], 16));
-  case 1: assert(__M4RI_ALIGNMENT(m, 16) == __M4RI_ALIGNMENT(t[0], 16));
-  };
 
   if (__M4RI_UNLIKELY(__M4RI_ALIGNMENT(m, 16) == 8)) {
     switch (N) { /* we rely on the compiler to optimise this switch away, it reads nicer than #if */
@@ -67,52 +58,52 @@ static inline void __M4RI_TEMPLATE_NAME(_mzd_combine)(word *m, word const *t[N],
     xmm3 = m__[3];
     switch (N) { /* we rely on the compiler to optimise this switch away, it reads nicer than #if */
     case 8:
-      xmm0 = _mm_xor_si128(xmm0, t__[7][0]);
-      xmm1 = _mm_xor_si128(xmm1, t__[7][1]);
-      xmm2 = _mm_xor_si128(xmm2, t__[7][2]);
-      xmm3 = _mm_xor_si128(xmm3, t__[7][3]);
+      xmm0 = _mm_xor_si128(xmm0, _mm_loadu_si128(t__[7] + 0));
+      xmm1 = _mm_xor_si128(xmm1, _mm_loadu_si128(t__[7] + 1));
+      xmm2 = _mm_xor_si128(xmm2, _mm_loadu_si128(t__[7] + 2));
+      xmm3 = _mm_xor_si128(xmm3, _mm_loadu_si128(t__[7] + 3));
       t__[7] += 4;
     case 7:
-      xmm0 = _mm_xor_si128(xmm0, t__[6][0]);
-      xmm1 = _mm_xor_si128(xmm1, t__[6][1]);
-      xmm2 = _mm_xor_si128(xmm2, t__[6][2]);
-      xmm3 = _mm_xor_si128(xmm3, t__[6][3]);
+      xmm0 = _mm_xor_si128(xmm0, _mm_loadu_si128(t__[6] + 0));
+      xmm1 = _mm_xor_si128(xmm1, _mm_loadu_si128(t__[6] + 1));
+      xmm2 = _mm_xor_si128(xmm2, _mm_loadu_si128(t__[6] + 2));
+      xmm3 = _mm_xor_si128(xmm3, _mm_loadu_si128(t__[6] + 3));
       t__[6] += 4;
     case 6:
-      xmm0 = _mm_xor_si128(xmm0, t__[5][0]);
-      xmm1 = _mm_xor_si128(xmm1, t__[5][1]);
-      xmm2 = _mm_xor_si128(xmm2, t__[5][2]);
-      xmm3 = _mm_xor_si128(xmm3, t__[5][3]);
+      xmm0 = _mm_xor_si128(xmm0, _mm_loadu_si128(t__[5] + 0));
+      xmm1 = _mm_xor_si128(xmm1, _mm_loadu_si128(t__[5] + 1));
+      xmm2 = _mm_xor_si128(xmm2, _mm_loadu_si128(t__[5] + 2));
+      xmm3 = _mm_xor_si128(xmm3, _mm_loadu_si128(t__[5] + 3));
       t__[5] += 4;
     case 5:
-      xmm0 = _mm_xor_si128(xmm0, t__[4][0]);
-      xmm1 = _mm_xor_si128(xmm1, t__[4][1]);
-      xmm2 = _mm_xor_si128(xmm2, t__[4][2]);
-      xmm3 = _mm_xor_si128(xmm3, t__[4][3]);
+      xmm0 = _mm_xor_si128(xmm0, _mm_loadu_si128(t__[4] + 0));
+      xmm1 = _mm_xor_si128(xmm1, _mm_loadu_si128(t__[4] + 1));
+      xmm2 = _mm_xor_si128(xmm2, _mm_loadu_si128(t__[4] + 2));
+      xmm3 = _mm_xor_si128(xmm3, _mm_loadu_si128(t__[4] + 3));
       t__[4] += 4;
     case 4:
-      xmm0 = _mm_xor_si128(xmm0, t__[3][0]);
-      xmm1 = _mm_xor_si128(xmm1, t__[3][1]);
-      xmm2 = _mm_xor_si128(xmm2, t__[3][2]);
-      xmm3 = _mm_xor_si128(xmm3, t__[3][3]);
+      xmm0 = _mm_xor_si128(xmm0, _mm_loadu_si128(t__[3] + 0));
+      xmm1 = _mm_xor_si128(xmm1, _mm_loadu_si128(t__[3] + 1));
+      xmm2 = _mm_xor_si128(xmm2, _mm_loadu_si128(t__[3] + 2));
+      xmm3 = _mm_xor_si128(xmm3, _mm_loadu_si128(t__[3] + 3));
       t__[3] += 4;
     case 3:
-      xmm0 = _mm_xor_si128(xmm0, t__[2][0]);
-      xmm1 = _mm_xor_si128(xmm1, t__[2][1]);
-      xmm2 = _mm_xor_si128(xmm2, t__[2][2]);
-      xmm3 = _mm_xor_si128(xmm3, t__[2][3]);
+      xmm0 = _mm_xor_si128(xmm0, _mm_loadu_si128(t__[2] + 0));
+      xmm1 = _mm_xor_si128(xmm1, _mm_loadu_si128(t__[2] + 1));
+      xmm2 = _mm_xor_si128(xmm2, _mm_loadu_si128(t__[2] + 2));
+      xmm3 = _mm_xor_si128(xmm3, _mm_loadu_si128(t__[2] + 3));
       t__[2] += 4;
     case 2:
-      xmm0 = _mm_xor_si128(xmm0, t__[1][0]);
-      xmm1 = _mm_xor_si128(xmm1, t__[1][1]);
-      xmm2 = _mm_xor_si128(xmm2, t__[1][2]);
-      xmm3 = _mm_xor_si128(xmm3, t__[1][3]);
+      xmm0 = _mm_xor_si128(xmm0, _mm_loadu_si128(t__[1] + 0));
+      xmm1 = _mm_xor_si128(xmm1, _mm_loadu_si128(t__[1] + 1));
+      xmm2 = _mm_xor_si128(xmm2, _mm_loadu_si128(t__[1] + 2));
+      xmm3 = _mm_xor_si128(xmm3, _mm_loadu_si128(t__[1] + 3));
       t__[1] += 4;
     case 1:
-      xmm0 = _mm_xor_si128(xmm0, t__[0][0]);
-      xmm1 = _mm_xor_si128(xmm1, t__[0][1]);
-      xmm2 = _mm_xor_si128(xmm2, t__[0][2]);
-      xmm3 = _mm_xor_si128(xmm3, t__[0][3]);
+      xmm0 = _mm_xor_si128(xmm0, _mm_loadu_si128(t__[0] + 0));
+      xmm1 = _mm_xor_si128(xmm1, _mm_loadu_si128(t__[0] + 1));
+      xmm2 = _mm_xor_si128(xmm2, _mm_loadu_si128(t__[0] + 2));
+      xmm3 = _mm_xor_si128(xmm3, _mm_loadu_si128(t__[0] + 3));
       t__[0] += 4;
     }
     m__[0] = xmm0;
@@ -125,55 +116,55 @@ static inline void __M4RI_TEMPLATE_NAME(_mzd_combine)(word *m, word const *t[N],
   for (; i < (wide >> 1); i++) {
     switch (N) { /* we rely on the compiler to optimise this switch away, it reads nicer than #if */
     case 8:
-      xmm0 = _mm_xor_si128(*t__[0]++, *t__[1]++);
-      xmm1 = _mm_xor_si128(*t__[2]++, *t__[3]++);
-      xmm2 = _mm_xor_si128(*t__[4]++, *t__[5]++);
-      xmm3 = _mm_xor_si128(*t__[6]++, *t__[7]++);
+      xmm0 = _mm_xor_si128(_mm_loadu_si128(t__[0]++), _mm_loadu_si128(t__[1]++));
+      xmm1 = _mm_xor_si128(_mm_loadu_si128(t__[2]++), _mm_loadu_si128(t__[3]++));
+      xmm2 = _mm_xor_si128(_mm_loadu_si128(t__[4]++), _mm_loadu_si128(t__[5]++));
+      xmm3 = _mm_xor_si128(_mm_loadu_si128(t__[6]++), _mm_loadu_si128(t__[7]++));
       xmm0 = _mm_xor_si128(xmm0, xmm1);
       xmm2 = _mm_xor_si128(xmm2, xmm3);
       xmm0 = _mm_xor_si128(xmm0, xmm2);
       xmm0 = _mm_xor_si128(*m__, xmm0);
       break;
     case 7:
-      xmm0 = _mm_xor_si128(*t__[0]++, *t__[1]++);
-      xmm1 = _mm_xor_si128(*t__[2]++, *t__[3]++);
-      xmm0 = _mm_xor_si128(xmm0, *t__[4]++);
-      xmm1 = _mm_xor_si128(xmm1, *t__[5]++);
-      xmm0 = _mm_xor_si128(xmm0, *t__[6]++);
+      xmm0 = _mm_xor_si128(_mm_loadu_si128(t__[0]++), _mm_loadu_si128(t__[1]++));
+      xmm1 = _mm_xor_si128(_mm_loadu_si128(t__[2]++), _mm_loadu_si128(t__[3]++));
+      xmm0 = _mm_xor_si128(xmm0, _mm_loadu_si128(t__[4]++));
+      xmm1 = _mm_xor_si128(xmm1, _mm_loadu_si128(t__[5]++));
+      xmm0 = _mm_xor_si128(xmm0, _mm_loadu_si128(t__[6]++));
       xmm0 = _mm_xor_si128(xmm0, xmm1);
       xmm0 = _mm_xor_si128(*m__, xmm0);
       break;
     case 6:
-      xmm0 = _mm_xor_si128(*t__[0]++, *t__[1]++);
-      xmm1 = _mm_xor_si128(*t__[2]++, *t__[3]++);
-      xmm0 = _mm_xor_si128(xmm0, *t__[4]++);
-      xmm1 = _mm_xor_si128(xmm1, *t__[5]++);
+      xmm0 = _mm_xor_si128(_mm_loadu_si128(t__[0]++), _mm_loadu_si128(t__[1]++));
+      xmm1 = _mm_xor_si128(_mm_loadu_si128(t__[2]++), _mm_loadu_si128(t__[3]++));
+      xmm0 = _mm_xor_si128(xmm0, _mm_loadu_si128(t__[4]++));
+      xmm1 = _mm_xor_si128(xmm1, _mm_loadu_si128(t__[5]++));
       xmm0 = _mm_xor_si128(xmm0, xmm1);
       xmm0 = _mm_xor_si128(*m__, xmm0);
       break;
     case 5:
-      xmm0 = _mm_xor_si128(*t__[0]++, *t__[1]++);
-      xmm1 = _mm_xor_si128(*t__[2]++, *t__[3]++);
-      xmm0 = _mm_xor_si128(xmm0, *t__[4]++);
+      xmm0 = _mm_xor_si128(_mm_loadu_si128(t__[0]++), _mm_loadu_si128(t__[1]++));
+      xmm1 = _mm_xor_si128(_mm_loadu_si128(t__[2]++), _mm_loadu_si128(t__[3]++));
+      xmm0 = _mm_xor_si128(xmm0, _mm_loadu_si128(t__[4]++));
       xmm0 = _mm_xor_si128(xmm0, xmm1);
       xmm0 = _mm_xor_si128(*m__, xmm0);
       break;
     case 4:
-      xmm0 = _mm_xor_si128(*t__[0]++, *t__[1]++);
-      xmm1 = _mm_xor_si128(*t__[2]++, *t__[3]++);
+      xmm0 = _mm_xor_si128(_mm_loadu_si128(t__[0]++), _mm_loadu_si128(t__[1]++));
+      xmm1 = _mm_xor_si128(_mm_loadu_si128(t__[2]++), _mm_loadu_si128(t__[3]++));
       xmm0 = _mm_xor_si128(xmm0, xmm1);
       xmm0 = _mm_xor_si128(*m__, xmm0);
       break;
     case 3:
-      xmm0 = _mm_xor_si128(*t__[0]++, *t__[1]++);
-      xmm1 = _mm_xor_si128(*m__, *t__[2]++);
+      xmm0 = _mm_xor_si128(_mm_loadu_si128(t__[0]++), _mm_loadu_si128(t__[1]++));
+      xmm1 = _mm_xor_si128(*m__, _mm_loadu_si128(t__[2]++));
       xmm0 = _mm_xor_si128(xmm0, xmm1);
       break;
     case 2:
-      xmm0 = _mm_xor_si128(*t__[0]++, *t__[1]++);
+      xmm0 = _mm_xor_si128(_mm_loadu_si128(t__[0]++), _mm_loadu_si128(t__[1]++));
       xmm0 = _mm_xor_si128(*m__, xmm0);
       break;
-    case 1: xmm0 = _mm_xor_si128(*m__, *t__[0]++); break;
+    case 1: xmm0 = _mm_xor_si128(*m__, _mm_loadu_si128(t__[0]++)); break;
     };
     *m__++ = xmm0;
   }
